@@ -283,6 +283,15 @@ func (ds *dataSet) SetRdb(rdb *dataSetRdb) {
 	ds.rdb = rdb
 }
 
+// dropRdb removes rdb from the data set if it is still the current snapshot
+func (ds *dataSet) dropRdb(rdb *dataSetRdb) {
+	ds.mux.Lock()
+	defer ds.mux.Unlock()
+	if ds.rdb == rdb {
+		ds.rdb = nil
+	}
+}
+
 func (ds *dataSet) GetRdb() *dataSetRdb {
 	ds.mux.RLock()
 	defer ds.mux.RUnlock()
